@@ -460,6 +460,22 @@ func (fs *FS) SetStepper(ch chan *StepCall) {
 	fs.mu.Unlock()
 }
 
+// StepPoint stops the calling goroutine at the stepper like a backend call (if a
+// stepper is set): for points of the server's request handling outside the
+// backend that a check wants to own (library hook, build tag verif).
+func (fs *FS) StepPoint(name string) {
+	fs.mu.Lock()
+	stepper := fs.stepper
+	fs.seq++
+	c := &Call{Op: "(" + name + ")", Seq: fs.seq, Errno: -1}
+	fs.mu.Unlock()
+	if stepper != nil {
+		sc := &StepCall{C: c, Exit: false, Go: make(chan struct{})}
+		stepper <- sc
+		<-sc.Go
+	}
+}
+
 // FailNext makes the next call of op on the File at path fail with errno.
 func (fs *FS) FailNext(op, path string, errno int) {
 	fs.mu.Lock()
@@ -589,6 +605,61 @@ func (fs *FS) Handles() []HandleInfo {
 		h.mu.Unlock()
 	}
 	return out
+}
+
+// LiveAtPath reports whether the object handle id was bound to is still the
+// entry at the handle's current path (known=false: the handle has no recorded
+// object, e.g. the attach root).
+func (fs *FS) LiveAtPath(id int) (live, known bool) {
+	fs.mu.Lock()
+	h := fs.handles[id]
+	fs.mu.Unlock()
+	if h == nil {
+		return false, false
+	}
+	h.mu.Lock()
+	born, path := h.born, h.path
+	h.mu.Unlock()
+	if born == nil {
+		return false, false
+	}
+	fs.treeMu.Lock()
+	now, e := fs.Tree.Resolve(split(path))
+	fs.treeMu.Unlock()
+	return e == 0 && now == born, true
+}
+
+// WhereIs returns every path at which the object handle id was bound to is
+// linked in the tree now, and the path the handle believes it has.
+func (fs *FS) WhereIs(id int) (objPaths []string, handlePath string, known bool) {
+	fs.mu.Lock()
+	h := fs.handles[id]
+	fs.mu.Unlock()
+	if h == nil {
+		return nil, "", false
+	}
+	h.mu.Lock()
+	born, path := h.born, h.path
+	h.mu.Unlock()
+	if born == nil {
+		return nil, path, false
+	}
+	fs.treeMu.Lock()
+	defer fs.treeMu.Unlock()
+	var walk func(dir *memtree.Inode, at string)
+	walk = func(dir *memtree.Inode, at string) {
+		for _, n := range memtree.Names(dir) {
+			c := dir.Children[n]
+			if c == born {
+				objPaths = append(objPaths, at+"/"+n)
+			}
+			if c.IsDir() {
+				walk(c, at+"/"+n)
+			}
+		}
+	}
+	walk(fs.Tree.Root, "")
+	return objPaths, path, true
 }
 
 // HandleByID returns one handle's snapshot.
